@@ -177,12 +177,26 @@ where
             BinaryReader::new(&mut self.read_stream, encoding_options());
 
         // Read in the reverse iteration row length
-        reader.seek(SeekFrom::Start(row_pos - 4)).await?;
+        let row_len_pos = row_pos.checked_sub(4).ok_or_else(|| {
+            std::io::Error::new(
+                std::io::ErrorKind::InvalidData,
+                "row length position before start of file",
+            )
+        })?;
+        reader.seek(SeekFrom::Start(row_len_pos)).await?;
         let row_len = reader.read_u32().await?;
 
-        // Position of the beginning of the row
-        // FIXME: handle panic on overflow when file length is too short
-        let row_start = row_pos - (row_len as u64 + 8);
+        // Position of the beginning of the row, a corrupted
+        // row length must not underflow
+        let row_start = row_pos
+            .checked_sub(row_len as u64 + 8)
+            .filter(|start| *start >= self.header_offset)
+            .ok_or_else(|| {
+                std::io::Error::new(
+                    std::io::ErrorKind::InvalidData,
+                    "row length exceeds the file content",
+                )
+            })?;
         let row_end = row_start + (row_len as u64 + 8);
 
         // Seek to the beginning of the row after the initial
